@@ -78,6 +78,11 @@ class LogElicitor:
         self.el = (IntegerLambdaElicitor if integer else LambdaElicitor)(f, memoize=memoize, zero_indexed=zero_indexed)
 
 
+def npint(k):
+    """an integer parameter as it often arrives from numpy code: every third value as a numpy integer scalar instead of a Python int"""
+    return (np.int64(k) if k % 3 == 0 else np.int32(k) if k % 3 == 1 and k > 3 else k)
+
+
 def profile_of(P):
     from socialchoicekit.profile_utils import StrictCompleteProfile
     from harness.common import relayout
@@ -115,7 +120,7 @@ def run_rule(rule, P, vals, k, zero=True, tie_breaker="accept", memoize=True, ca
             cache[key] = mk()
         return cache[key]
     if rule == "karv":
-        r = obj(("karv", k, tie_breaker, zero), lambda: KARV(k=k, tie_breaker=tie_breaker, zero_indexed=zero))
+        r = obj(("karv", k, tie_breaker, zero), lambda: KARV(k=npint(k), tie_breaker=tie_breaker, zero_indexed=zero))
         sim = r.get_simulated_cardinal_profile(prof, le.el)
         res["sim"] = [[fr(Fraction(float(x))) for x in row] for row in np.asarray(sim)]
         le2 = LogEl(vals, memoize)
@@ -123,13 +128,13 @@ def run_rule(rule, P, vals, k, zero=True, tie_breaker="accept", memoize=True, ca
         res["out"] = [int(x) for x in np.atleast_1d(w)]
         res["score"] = [fr(Fraction(float(x))) for x in r.score(prof, LogEl(vals, memoize).el)]
     elif rule == "prv":
-        r = obj(("prv", k, tie_breaker, zero), lambda: LambdaPRV(lambda_=k, tie_breaker=tie_breaker, zero_indexed=zero))
+        r = obj(("prv", k, tie_breaker, zero), lambda: LambdaPRV(lambda_=npint(k), tie_breaker=tie_breaker, zero_indexed=zero))
         sc = r.score(prof, le.el)
         res["sim"] = None
         res["score"] = [fr(Fraction(float(x))) for x in sc]
         res["out"] = [int(x) for x in np.atleast_1d(r.scf(prof, LogEl(vals, memoize).el))]
     elif rule == "tsf":
-        r = obj(("tsf", k, zero), lambda: LambdaTSF(lambda_=k, zero_indexed=zero))
+        r = obj(("tsf", k, zero), lambda: LambdaTSF(lambda_=npint(k), zero_indexed=zero))
         sim = r.get_simulated_cardinal_profile(prof, le.el)
         res["sim"] = [[fr(Fraction(float(x))) for x in row] for row in np.asarray(sim)]
         res["out"] = [int(x) for x in r.scf(prof, LogEl(vals, memoize).el)]
